@@ -3,14 +3,54 @@ from ..props import prop
 
 prop(
     "C07",
+    ready=True,
     level="other",
-    explanation="draft",
-    bounds="draft",
-    outside="draft",
-    level_text="draft",
-    level_note="draft",
-    technique="Kani/CBMC harnesses on the real decoders",
-    assumptions=[],
+    explanation=(
+        "Decoder totality is decided per decoding unit by executing the real decoders symbolically (Kani/CBMC; panic, "
+        "arithmetic-overflow, index and slice-bounds checks on). Fully symbolic bytes with a symbolic length and both "
+        "endiannesses are used for: the submessage header (8 bytes); ACKNACK (32), GAP (36), HEARTBEAT, HEARTBEAT_FRAG, "
+        "INFO_DST, INFO_SRC, INFO_TS, PAD (32), INFO_REPLY (32) with a fully symbolic submessage header; DATA (28) and "
+        "DATA_FRAG (40) with the inline-QoS flag clear (flags octet enumerated, submessage_length / octetsToInlineQos / "
+        "body symbolic); SequenceNumberSet (28), LocatorList (32); the CDR primitives of the discovery layer (28) and "
+        "the discovery ParameterList::new / PidIterator / seek_to_pid / get_(non_)optional_parameter path (16 bytes, "
+        "symbolic pid). Where a count or length is read from the wire the number of produced elements / bytes is asserted "
+        "to be bounded by the input length. Three units are not tractable on fully symbolic bytes (measured): "
+        "the RTPS ParameterList reader (8 symbolic bytes: 345 s / 5.4 GB, 12 bytes > 10 GB), hence DATA / DATA_FRAG with "
+        "inline QoS; FragmentNumberSet (a Vec::with_capacity(256) filled by conditional pushes: 4 symbolic bits > 9 GB); "
+        "String::cdr_deserialize (std UTF-8 validation over a symbolic-length buffer). For these the control fields "
+        "(length fields, sentinel position, numBits / bitmap pattern, CDR string length, endianness, slice end) are "
+        "enumerated concretely over every branch outcome of the parser - well-formed with 0..3 parameters, missing "
+        "sentinel, length not a multiple of 4, length beyond the end, truncated header / value, empty region; numBits "
+        "0/1/4/32/33/64 (thorough: 255/256); string length 1/3/exact/too long/0xffffffff - and all remaining bytes "
+        "(ids, sequence numbers, parameter values, payload, set base) are symbolic; the verdict of every member is "
+        "asserted exactly (decodes with the expected count / payload / consumed bytes, or is rejected). "
+        "Three genuine defects are recorded as known findings with __known/__rest splits: FragmentNumberSet numBits > 256 "
+        "(index out of bounds), FragmentNumberSet base overflow, String CDR length 0 (length - 1 underflow)."),
+    bounds="quick: <= 44 symbolic bytes per unit (sizes per obligation in the evidence file), unwind 3..66; thorough: "
+           "maximal 256-bit SequenceNumberSet / ACKNACK / GAP (44..60 bytes), INFO_REPLY 60 bytes, remaining flag octets and "
+           "swapped endianness of the enumerated families, FragmentNumberSet numBits 255/256, ParameterList on 8 fully "
+           "symbolic bytes, discovery get_locator_list on 32 fully symbolic bytes",
+    outside="whole-message composition RtpsMessageRead::try_from on arbitrary bytes (not tractable: >1500 s for 36 bytes; the "
+            "dispatcher is exercised on encoder-built messages under C06/C08); DATA / DATA_FRAG with the inline-QoS flag set "
+            "and *arbitrary* length fields / octetsToInlineQos (only the enumerated family); FragmentNumberSet / NACK_FRAG with "
+            "arbitrary bitmaps (concrete patterns only) and numBits in the known-defect region; strings longer than 3 "
+            "characters and std's UTF-8 validator (stubbed to accept, trusted); inputs longer than the per-unit byte bounds; "
+            "user sample payloads and discovery *values* decoded through the XTypes deserializer / DynamicData (not tractable, "
+            "see DESIGN section 6); memory accounting other than the element-count bounds asserted per unit; the DATA flag N and "
+            "unused flag bits of DATA/DATA_FRAG (not read by the decoders' control flow) are 0 in the flag-enumerated harnesses",
+    level_text="Bounded symbolic execution of the real decoders: every byte string up to the stated length (or every member of "
+               "the stated image family with all non-control bytes symbolic) is covered; nothing is sampled. Not a proof for "
+               "unbounded inputs.",
+    level_note="trusted: Kani/CBMC, harness oracles, std UTF-8 validation (stubbed in the two String harnesses); the three known "
+               "findings KF-C07-1..3 are excluded from the __rest obligations by their recorded trigger predicates only",
+    technique="Kani/CBMC proof harnesses on the real decoders (rtps_messages::*, dcps::data_representation_builtin_endpoints::rtps_data_representation)",
+    assumptions=[
+        "NOT trigger KF-C07-1 / KF-C07-2 in the FragmentNumberSet / NACK_FRAG __rest obligations; NOT trigger KF-C07-3 in the String __rest obligation",
+        "core::str::from_utf8 stubbed (accepts every byte string) in c07_discovery_string_zero_length__known and c07_cdr_string__rest",
+        "control fields of inline-QoS / FragmentNumberSet / String images taken from the enumerated families (listed per obligation)",
+    ],
+    timeout={"quick": 600, "thorough": 1500},
+    mem_gb=10,
 )
 
 prop(
